@@ -91,7 +91,7 @@ func corpus(kind string) []doc {
 			}
 		}
 		for _, t := range []rm.Type{rm.List, rm.Sexp, rm.Struct} {
-			for _, n := range []int{0, 1, 13, 14, 127, 128, 16383, 16384} {
+			for _, n := range []int{0, 1, 13, 14, 127, 128, 16383, 16384, 65535, 65536, 65537, 70000} { // 64 KiB: where the binary reader starts reading in chunks
 				add(fmt.Sprintf("len-%v-%d", t, n), catalogue.WithLen(t, n), rm.IntV(9))
 				if n > 3 {
 					add(fmt.Sprintf("len-ann-%v-%d", t, n), catalogue.WithLen(t, n-3).A("a"), rm.IntV(9))
